@@ -58,3 +58,9 @@ def run(ctx, chk, prop="C05"):
     sub = Sub(chk, "C05/transport", lambda r: r.startswith(("C04-a/", "C04-b/")))
     rules_c04.run(ctx, sub)
     chk.floor("read_packet obligations (shared with C04-a/b)", sub.count, 4)
+    # the data request of the firmware upload is answered with the block it asked for - if the block cannot be produced
+    # (a read that insists on a full buffer at the tail of a file) the request stays unanswered (C11-c)
+    import rules_c11
+    sub11 = Sub(chk, "C05/data-answer", lambda r: r.startswith("C11-c/"))
+    rules_c11.run(ctx, sub11)
+    chk.floor("data-answer obligations (shared with C11-c)", sub11.count, 3)
